@@ -90,6 +90,11 @@ def convert_chunks(source_url, dest_url, copy_info=False,
         convert_chunks_for_scale(chunk_reader,
                                  dest_info, chunk_writer, scale_index,
                                  chunk_transformer)
+    # A sharded accessor buffers its output: write it now rather than from the
+    # exit handler, whose errors are ignored by the interpreter (the command
+    # would report success without having written the shards).
+    if hasattr(dest_accessor, "close"):
+        dest_accessor.close()
 
 
 def parse_command_line(argv):
